@@ -123,7 +123,11 @@ func vGetGzipReader(r io.Reader) (*gzip.Reader, error) {
 	}
 	return &gzip.Reader{}, nil
 }
-func vPutGzipReader(z *gzip.Reader) { vCur.gzipReleased = true }
+func vPutGzipReader(z *gzip.Reader) {
+	// a reader handed back twice sits in the pool twice and is given to two scrapes at once
+	zzv.AssertSym("C12.pooled.gzip.reader.released.once", !vCur.gzipReleased)
+	vCur.gzipReleased = true
+}
 func vGzipRead(z *gzip.Reader, p []byte) (int, error) {
 	// the decompressor comes from a pool shared by all scrapes: once it is handed back another
 	// scrape may own it, so no byte of this response may be read through it any more (a lemma
